@@ -101,3 +101,21 @@ func c20ListElem(l, v c20V) (c20Sym, bool) {
 	}
 	return nil, false
 }
+
+// appendSpread models append(dst, src...): bytes or a string appended to a byte buffer, a list to a string list.
+// The source is copied, so no aliasing arises from it.
+func (x *c20SX) appendSpread(dst, src c20V, at ast.Node) c20V {
+	switch {
+	case dst.k == c20kBytes && (src.k == c20kStr || src.k == c20kBytes):
+		n := dst
+		n.sym = append(append(c20Sym(nil), dst.sym...), src.sym...)
+		return n
+	case dst.k == c20kNil && src.k == c20kBytes: // append([]byte(nil), scratch...): a copy
+		return c20V{k: c20kBytes, sym: append(c20Sym(nil), src.sym...), typ: src.typ}
+	case dst.k == c20kList && src.k == c20kList && dst.name == src.name && dst.star == nil && dst.tag != "presized" && !src.in && src.star == nil && src.tag != "presized":
+		n := dst
+		n.elems = append(append([]c20Sym(nil), dst.elems...), src.elems...)
+		return n
+	}
+	return c20Unknown("`%s`", x.srcOf(at))
+}
